@@ -458,7 +458,13 @@ fn mutants(text: &str, r: &mut Prng) -> Vec<Mutant> {
         }
     }
     // M10: header with no line break
-    out.push(Mutant { op: "M10-header-without-line-break", text: text[..names.last().unwrap().2].to_string() });
+    let hdr = &text[..names.last().unwrap().2];
+    out.push(Mutant { op: "M10-header-without-line-break", text: hdr.to_string() });
+    // ... also when the text is cut between the CR and the LF of a CRLF line end, or the
+    // header is followed by blanks only (a carriage return is a blank, not a line break)
+    for tail in ["\r", " \r", "\t \r\r", "  ", "\x0c"] {
+        out.push(Mutant { op: "M10-header-without-line-break", text: format!("{hdr}{tail}") });
+    }
     out
 }
 
